@@ -9,8 +9,8 @@ way" — is the class of valuations over which the base-logic axioms are proved 
 
 `sem` itself is unchanged: it reads every constant other than `equals`/`implies`/`all` from the
 valuation.  `StdBase` restricts the valuation at *instances of the declared types* only; the same
-names at other types stay uninterpreted.  `_VAR` (declared by logic_base, no axiom) stays
-uninterpreted at every type.
+names at other types stay uninterpreted.  `_VAR` (declared by logic_base for internal use; the
+`variable` rule asserts `⊢ _VAR x`) is the predicate that is true of everything.
 -/
 namespace Holpy
 
@@ -50,6 +50,9 @@ def ex1Code (n : Nat) : Nat :=
 def leastWitness (n p : Nat) : Nat :=
   ((List.range n).find? fun v => appCode p v 2 == 1).getD 0
 
+/-- `_VAR` at a carrier of size `n`: the marker "is a variable", true of everything -/
+def varCode (n : Nat) : Nat := lamCode (fun _ => 1) n 2
+
 /-- the deterministic choice function the oracle uses for `Some` and `The`
 (a ⇒ bool) ⇒ a at a carrier of size `n` -/
 def choiceCode (n : Nat) : Nat := lamCode (leastWitness n) (2 ^ n) n
@@ -84,6 +87,8 @@ structure StdBase (M : Model) (ρ : Valuation) : Prop where
   the : ∀ (a : Ty) (p v : Nat), p < 2 ^ M.size a → v < M.size a → appCode p v 2 = 1 →
     (∀ w, w < M.size a → appCode p w 2 = 1 → w = v) →
     appCode (ρ 2 "The" (BaseTy.choice a)) p (M.size a) = v
+  /-- the internal marker `_VAR` (what the `variable` rule asserts) holds of everything -/
+  var_ : ∀ a : Ty, ρ 2 "_VAR" (Ty.fn a Ty.bool) = varCode (M.size a)
 
 /-- Is `const name T` a base-logic constant at an instance of its declared type?  Returns its
 standard value in `M` (for `Some`/`The`: the least-witness choice function). -/
@@ -102,6 +107,7 @@ def stdConst (M : Model) (name : String) (T : Ty) : Option Nat :=
     if a = a' then some (choiceCode (M.size a)) else none
   | "The", .con "fun" [.con "fun" [a, .con "bool" []], a'] =>
     if a = a' then some (choiceCode (M.size a)) else none
+  | "_VAR", .con "fun" [a, .con "bool" []] => some (varCode (M.size a))
   | _, _ => none
 
 /-- the standard valuation that sends everything else to 0 -/
